@@ -4,7 +4,7 @@
 Require Extraction.
 Require Import ExtrOcamlBasic.
 From Similar Require Import Model.Base Model.Utils Model.Myers Model.Lcs Model.Hooks
-     Model.Patience Model.Compact Model.Capture Model.Iter Spec.Script Check.Script Proofs.Iter.
+     Model.Patience Model.Compact Model.Capture Model.Iter Spec.Script Spec.Group Check.Script Proofs.Iter.
 
 
 Extraction "../ocaml/model.ml"
@@ -16,4 +16,4 @@ Extraction "../ocaml/model.ml"
   clock_at cmp_of slice_lookup offset_lookup capture_calls op_to_call
   check_raw check_finish_last check_ops_loose check_ops_exact check_normal
   check_alternating check_insert_latest deleted inserted equal_total lcs_len check_minimal
-  expand_op expand_all.
+  expand_op expand_all group_ref check_groups.
